@@ -36,7 +36,7 @@ impl Prop for C40 {
             max_len: 50,
         };
         // a third of the cases (all of them when there is room) are the single-step enumeration
-        let singles = if n >= 3 * single_step_count() / 2 { single_step_count() } else { n / 3 };
+        let singles = if n >= single_step_count() + 400 { single_step_count() } else { n / 3 };
         let off = rng.below(single_step_count() as u64) as usize;
         for i in 0..singles {
             gen_single_step(off + i, out);
